@@ -177,14 +177,52 @@ func (s *rtSpec) renderTM() string {
 				sep = "  | "
 			}
 			var parts []string
-			for _, sym := range r.RHS {
+			symText := func(sym int) string {
 				switch {
 				case sym < 0:
-					parts = append(parts, "."+s.Markers[-1-sym])
+					return "." + s.Markers[-1-sym]
 				case sym < s.NT:
-					parts = append(parts, termName(sym))
-				default:
-					parts = append(parts, ntName(sym))
+					return termName(sym)
+				}
+				return ntName(sym)
+			}
+			if s.Cfg.Events && len(r.Arrows) > 0 {
+				// nested arrows: [from, to] 1-based inclusive over RHS positions, properly nested
+				// distinct, properly nested ranges; at each position open the widest arrow that starts
+				// here, fits and is not the one being rendered
+				var rend func(from, to int, skip int) string
+				rend = func(from, to int, skip int) string {
+					var out []string
+					for pos := from; pos <= to; {
+						best := -1
+						for k, a := range r.Arrows {
+							if k == skip || a[0] != pos || a[1] > to {
+								continue
+							}
+							if skip >= 0 && a[0] == r.Arrows[skip][0] && a[1] >= r.Arrows[skip][1] {
+								continue
+							}
+							if best == -1 || a[1] > r.Arrows[best][1] {
+								best = k
+							}
+						}
+						if best >= 0 {
+							a := r.Arrows[best]
+							out = append(out, fmt.Sprintf("(%s -> Q%03d_%d)", rend(a[0], a[1], best), ri, best))
+							pos = a[1] + 1
+							continue
+						}
+						out = append(out, symText(r.RHS[pos-1]))
+						pos++
+					}
+					return strings.Join(out, " ")
+				}
+				if len(r.RHS) > 0 {
+					parts = append(parts, rend(1, len(r.RHS), -1))
+				}
+			} else {
+				for _, sym := range r.RHS {
+					parts = append(parts, symText(sym))
 				}
 			}
 			if len(parts) == 0 || allMarkers(r.RHS) {
@@ -201,6 +239,32 @@ func (s *rtSpec) renderTM() string {
 		b.WriteString(";\n\n")
 	}
 	return b.String()
+}
+
+// assignTypes computes the listener NodeType numbers: 0 is NoType, then all node names in sorted order.
+func assignTypes(s *rtSpec) {
+	if !s.Cfg.Events {
+		return
+	}
+	var names []string
+	for ri, r := range s.Rules {
+		names = append(names, fmt.Sprintf("R%03d", ri))
+		for k := range r.Arrows {
+			names = append(names, fmt.Sprintf("Q%03d_%d", ri, k))
+		}
+	}
+	sort.Strings(names)
+	id := map[string]int{}
+	for i, n := range names {
+		id[n] = i + 1
+	}
+	for ri := range s.Rules {
+		s.Rules[ri].RType = id[fmt.Sprintf("R%03d", ri)]
+		s.Rules[ri].AType = []int{}
+		for k := range s.Rules[ri].Arrows {
+			s.Rules[ri].AType = append(s.Rules[ri].AType, id[fmt.Sprintf("Q%03d_%d", ri, k)])
+		}
+	}
 }
 
 func allMarkers(rhs []int) bool {
@@ -413,6 +477,7 @@ func rtGen(args []string) error {
 	}
 	// generation is sequential: the generator keeps package-level state
 	for i := range specs {
+		assignTypes(&specs[i])
 		genOne(mod, &specs[i])
 	}
 	var imports, table []string
